@@ -124,12 +124,17 @@ InverseOK(A, B) == IsInverse(A, B)
 TrtriOK(U0, U1) == IsUnitUpper(U1) /\ Eq(Mul(U0, U1), Id(U0.n))
 
 \* ---- C06 solving: B has max(m,n) rows, A is padded with zero rows when m < n -------
-SolveOK(A0, B0, B1, ret) ==
+SolveOKc(A0, B0, B1, ret, check) ==
   LET m == A0.m  n == A0.n  w == B0.n
       Apad == IF m < n THEN Stack(A0, Zero(n - m, n)) ELSE A0
       cons == Consistent(Apad, B0)
-  IN /\ ret = (IF cons THEN 0 ELSE -1)
-     /\ ret = 0 => Eq(Mul(A0, Sub(B1, 0, 0, n, w)), Sub(B0, 0, 0, m, w))
+  IN IF check = 1
+     THEN /\ ret = (IF cons THEN 0 ELSE -1)
+          /\ ret = 0 => Eq(Mul(A0, Sub(B1, 0, 0, n, w)), Sub(B0, 0, 0, m, w))
+     \* without the consistency check the verdict is always 0; for a consistent system the solution must still be one
+     ELSE /\ ret = 0
+          /\ cons => Eq(Mul(A0, Sub(B1, 0, 0, n, w)), Sub(B0, 0, 0, m, w))
+SolveOK(A0, B0, B1, ret) == SolveOKc(A0, B0, B1, ret, 1)
 
 \* ---- C07 kernel: hasK = a matrix was returned; K its value --------------------------
 KernelOK(A0, hasK, K) ==
